@@ -90,8 +90,8 @@ func unparen(e ast.Expr) ast.Expr {
 	}
 }
 
-// roundHelpers: names of file-local functions `func name[T ..](v float64) float64` whose last statement is
-// `return math.Round(v)` (a rounding helper that lets float targets through unchanged).
+// roundHelpers: names of file-local functions `func name[T ..](v float64) float64` that apply math.Round
+// (a rounding helper that lets float targets through unchanged).
 func roundHelpers(f *ast.File) map[string]bool {
 	hs := map[string]bool{}
 	for _, d := range f.Decls {
@@ -99,13 +99,18 @@ func roundHelpers(f *ast.File) map[string]bool {
 		if !ok || fd.Recv != nil || fd.Body == nil || len(fd.Body.List) == 0 {
 			continue
 		}
-		ret, ok := fd.Body.List[len(fd.Body.List)-1].(*ast.ReturnStmt)
-		if !ok || len(ret.Results) != 1 {
+		// one float64 parameter, one float64 result, and math.Round applied somewhere in the body (however the branches that let
+		// float targets through are written): that it really rounds integer targets is what the correspondence checks
+		if fd.Type.Params == nil || len(fd.Type.Params.List) != 1 || fd.Type.Results == nil || len(fd.Type.Results.List) != 1 ||
+			exprString(fd.Type.Params.List[0].Type) != "float64" || exprString(fd.Type.Results.List[0].Type) != "float64" {
 			continue
 		}
-		if c, ok := ret.Results[0].(*ast.CallExpr); ok && exprString(c.Fun) == "math.Round" && len(c.Args) == 1 {
-			hs[fd.Name.Name] = true
-		}
+		ast.Inspect(fd.Body, func(n ast.Node) bool {
+			if c, ok := n.(*ast.CallExpr); ok && exprString(c.Fun) == "math.Round" && len(c.Args) == 1 {
+				hs[fd.Name.Name] = true
+			}
+			return true
+		})
 	}
 	return hs
 }
